@@ -19,13 +19,13 @@ def _funcs():
     return [i.loads, i._iso8583_to_dict, i._iso8583_to_field, i._string_to_pytype, i._get_field_length, i._pds_to_dict, i._icc_to_dict]
 
 
-def framing(pick, enc, hexbm, nmax, sub=True):
+def framing(pick, enc, hexbm, nmax, sub=True, bit1=True):
     def h():
         core.FUEL.set(nmax + 10)
         iso = M().iso8583
         bits = list(pick())
         cfgs = bit_config()
-        msg, data, src = abstract_message(bits, enc, hexbm, nmax)
+        msg, data, src = abstract_message(bits, enc, hexbm, nmax, bit1=bit1)
 
         def rp():
             return {'kind': 'loads', 'args': {'data': witness_bytes(msg), 'enc': enc, 'hexbm': hexbm}}
@@ -83,6 +83,8 @@ def obligations(tier):
                       'each configured non-PDS/ICC element alone, data length 0..%d' % nmax, _funcs, 'bitmaps outside the family; longer data'))
         obs.append(Ob('pairs/' + tag, framing(lambda: choose('bits', pairs), enc, hexbm, nmax, sub=False), 900,
                       '%d element pairs, data length 0..%d (sub-element walkers not compared here)' % (len(pairs), nmax), _funcs))
+    obs.append(Ob('bit1-clear/latin_1', framing(lambda: choose('bits', [[2, 71], [63, 71], [93, 94], [3, 127], [65 - 2, 66 + 5]]), 'latin_1', False, 20, sub=False, bit1=False), 600,
+                  'incoming bitmaps with bit 1 clear and elements above 64 flagged (the bitmap is always 16 bytes): framing must not depend on bit 1', _funcs))
     obs.append(Ob('triples/latin_1', framing(lambda: choose('bits', triples), 'latin_1', False, 16 if q else 26, sub=False), 900,
                   'element triples %s, data 0..%d' % (triples, 16 if q else 26), _funcs))
     obs.append(Ob('pairs-with-pds/latin_1', framing(lambda: choose('bits', [[3, 48], [48, 49], [54, 62]]), 'latin_1', False, 13 if q else 18), 900,
